@@ -232,293 +232,306 @@ theorem ct_intColumn_read (w : Nat) (allEqual : Bool) (raws : List (Option Nat))
   cases henc
   exact hrd
 
-/-- From the supplied values of a column to the column the decoder reads.  `rawOpt` is the encoder's
-    conversion of a supplied value, `rN` the field content as a natural number (`none` = missing). -/
-theorem ct_intColumn_vals (w : Nat) (rawOpt : Val → Except Err (Option Int)) (rN : Val → Option Nat)
+theorem ct_fieldUInt_int {r : Int} {w : Nat} (hw : 0 < w) (h0 : 0 ≤ r) (hlt : r.toNat < 2 ^ w) :
+    fieldUInt r w = .ok (toBits w r.toNat) := by
+  have := fieldUInt_nat r.toNat w hw hlt
+  rwa [Int.toNat_of_nonneg h0] at this
+
+theorem ct_catBits_two {a b f : Bits} (h : catBits [.ok a, .ok b] = .ok f) : f = a ++ b := by
+  simp only [catBits, List.append_nil] at h
+  cases h; rfl
+
+/-- The integer column, from the supplied values to what the compressed decoder reads: per subset
+    exactly what the UNCOMPRESSED decoder reads from the field of that subset
+    (`rdOrNone w raw`: all ones of a field wider than one bit is missing).
+    `rawOpt` is the compressed encoder's conversion of a supplied value, `rawU v` the unsigned integer
+    the uncompressed encoder writes for `v` (the all-ones pattern for a missing value).
+    `hbad`: the one exception — a missing value in a one-bit field of a column that is not all-equal. -/
+theorem ct_intColumnN_vals (w : Nat) (rawOpt : Val → Except Err (Option Int)) (rawU : Val → Int)
     (v0 : Val) (vs : List Val) (raws : List (Option Int)) (f : Bits)
     (hw : 0 < w) (hw64 : w ≤ 64)
-    (hraw : ∀ v ∈ v0 :: vs, rawOpt v = .ok ((rN v).map Int.ofNat))
-    (hrange : ∀ v ∈ v0 :: vs, ∀ x, rN v = some x → x < 2 ^ w ∧ (1 < w → x < 2 ^ w - 1))
-    (hmiss : ∀ v ∈ v0 :: vs, rN v = none → v = .missing ∧ 1 < w)
+    (hU : ∀ v ∈ v0 :: vs, 0 ≤ rawU v ∧ (rawU v).toNat < 2 ^ w)
+    (hopt : ∀ v ∈ v0 :: vs, rawOpt v = .ok (if v = .missing then none else some (rawU v)))
+    (hmiss : ∀ v ∈ v0 :: vs, v = .missing → rawU v = ((2 ^ w - 1 : Nat) : Int))
+    (hbad : ¬ (((v0 :: vs).all (· == v0)) = false ∧ w = 1 ∧ ∃ v ∈ v0 :: vs, v = .missing))
     (hmap : List.mapM (m := Except Err) rawOpt
       (if ((v0 :: vs).all (· == v0)) = true then (v0 :: vs).take 1 else v0 :: vs) = .ok raws)
-    (henc : encIntColumn ((v0 :: vs).all (· == v0)) raws w = .ok f) (suf : Bits) :
-    readColumn w (v0 :: vs).length (f ++ suf) = .ok ((v0 :: vs).map rN, suf) := by
-  have hlen : (v0 :: vs).length = ((v0 :: vs).map rN).length := by simp
-  rw [hlen]
-  have henc' : encIntColumn ((v0 :: vs).all (· == v0)) (((v0 :: vs).map rN).map (Option.map Int.ofNat)) w
-      = .ok f := by
-    cases ha : ((v0 :: vs).all (· == v0)) with
-    | true =>
-      rw [ha] at hmap henc
-      simp only [if_true, List.take_succ_cons, List.take_zero, List.mapM_cons, List.mapM_nil,
-        hraw v0 (by simp)] at hmap
-      cases hmap
-      simpa [encIntColumn] using henc
-    | false =>
-      rw [ha] at hmap henc
-      simp only [Bool.false_eq_true, if_false] at hmap
-      rw [ct_mapM_of_forall rawOpt (fun v => (rN v).map Int.ofNat) (v0 :: vs) hraw] at hmap
-      cases hmap
-      rw [List.map_map]
-      exact henc
-  refine ct_intColumn_read w _ _ f suf hw hw64 ?_ ?_ (by simp) ?_ ?_ henc'
-  · intro x hx
-    obtain ⟨v, hv, hvx⟩ := List.mem_map.mp hx
-    exact hrange v hv x hvx
-  · intro h1
-    cases h0 : rN v0 with
-    | none => have := (hmiss v0 (by simp) h0).2; omega
-    | some x => exact ⟨x, List.mem_map.mpr ⟨v0, by simp, h0⟩⟩
-  · intro ha r hr
-    obtain ⟨v, hv, rfl⟩ := List.mem_map.mp hr
-    rw [all_beq_mem ha hv]
-    rfl
-  · intro ha
-    have hex : ∃ v ∈ v0 :: vs, v ≠ v0 := by
-      apply Classical.byContradiction
-      intro hno
-      have : ((v0 :: vs).all (· == v0)) = true := by
-        rw [List.all_eq_true]
+    (henc : encIntColumnN ((v0 :: vs).all (· == v0)) raws w = .ok f) (suf : Bits) :
+    readColumn w (v0 :: vs).length (f ++ suf) =
+      .ok ((v0 :: vs).map (fun v => rdOrNone w (rawU v).toNat), suf) := by
+  have hp := Nat.two_pow_pos w
+  have h06 : fieldUInt 0 6 = .ok (toBits 6 0) := rfl
+  have hmissf : (do fieldUInt (← missingPattern w) w : CM Bits) = .ok (ones w) := fieldUInt_missing w hw hw64
+  cases ha : ((v0 :: vs).all (· == v0)) with
+  | true =>
+    rw [ha] at hmap henc
+    simp only [if_true, List.take_succ_cons, List.take_zero, List.mapM_cons, List.mapM_nil,
+      hopt v0 (by simp)] at hmap
+    cases hmap
+    obtain ⟨h0, hlt⟩ := hU v0 (by simp)
+    have hf : f = toBits w (rawU v0).toNat ++ toBits 6 0 := by
+      by_cases hv0 : v0 = .missing
+      · have hr := hmiss v0 (by simp) hv0
+        simp only [encIntColumnN, if_true, encIntColumn, hv0, List.headD_cons, hmissf, h06] at henc
+        rw [ct_catBits_two henc, hv0] at *
+        rw [hr, ← toBits_max]
+        congr 2
+      · simp only [encIntColumnN, if_true, encIntColumn, hv0, if_false, List.headD_cons,
+          ct_fieldUInt_int hw h0 hlt, h06] at henc
+        exact ct_catBits_two henc
+    have hrep : (v0 :: vs).map (fun v => rdOrNone w (rawU v).toNat)
+        = List.replicate (v0 :: vs).length (rdOrNone w (rawU v0).toNat) := by
+      rw [List.eq_replicate_iff]
+      refine ⟨by simp, fun b hb => ?_⟩
+      obtain ⟨v, hv, rfl⟩ := List.mem_map.mp hb
+      rw [all_beq_mem ha hv]
+    rw [hf, hrep]
+    simp only [readColumn, List.append_assoc, readUIntOrNone_toBits w _ _ hw hw64 hlt,
+      readUInt_toBits 6 0 suf (by omega) (by omega)]
+    cases rdOrNone w (rawU v0).toNat <;> simp
+  | false =>
+    rw [ha] at hmap henc hbad
+    simp only [Bool.false_eq_true, if_false] at hmap
+    rw [ct_mapM_of_forall rawOpt (fun v => if v = .missing then none else some (rawU v)) (v0 :: vs) hopt]
+      at hmap
+    cases hmap
+    -- the column as the compressed encoder sees it after `allOnesAsMissing`
+    let e : Val → Option Nat := fun v =>
+      if v = .missing then none
+      else if 1 < w ∧ (rawU v).toNat = 2 ^ w - 1 then none else some (rawU v).toNat
+    have hraws : allOnesAsMissing w ((v0 :: vs).map fun v => if v = .missing then none else some (rawU v))
+        = ((v0 :: vs).map e).map (Option.map Int.ofNat) := by
+      unfold allOnesAsMissing
+      by_cases hw1 : w ≤ 1
+      · rw [if_pos hw1, List.map_map]
+        apply List.map_congr_left
         intro v hv
-        have : v = v0 := Classical.byContradiction fun hne => hno ⟨v, hv, hne⟩
-        simp [this]
-      rw [this] at ha; cases ha
-    obtain ⟨v, hv, hne⟩ := hex
-    cases hrv : rN v with
-    | some x => exact ⟨x, List.mem_map.mpr ⟨v, hv, hrv⟩⟩
-    | none =>
-      have hvm := (hmiss v hv hrv).1
-      cases h0 : rN v0 with
-      | some x => exact ⟨x, List.mem_map.mpr ⟨v0, by simp, h0⟩⟩
-      | none =>
-        have := (hmiss v0 (by simp) h0).1
-        rw [this] at hne
-        exact absurd hvm hne
+        obtain ⟨h0, _⟩ := hU v hv
+        by_cases hvm : v = .missing
+        · simp [e, hvm]
+        · have : ¬ 1 < w := by omega
+          simp only [e, hvm, if_false, this, false_and, Function.comp, Option.map_some,
+            Int.ofNat_eq_natCast, Int.toNat_of_nonneg h0]
+      · rw [if_neg hw1, List.map_map, List.map_map]
+        apply List.map_congr_left
+        intro v hv
+        obtain ⟨h0, _⟩ := hU v hv
+        have h1 : 1 < w := by omega
+        by_cases hvm : v = .missing
+        · simp [e, hvm]
+        · by_cases hones : (rawU v).toNat = 2 ^ w - 1
+          · have : rawU v = ((2 ^ w - 1 : Nat) : Int) := by omega
+            simp [e, hvm, h1, hones, this]
+          · have : ¬ rawU v = ((2 ^ w - 1 : Nat) : Int) := by omega
+            simp only [e, hvm, if_false, h1, hones, and_false, Function.comp, Option.map_some,
+              Int.ofNat_eq_natCast, Int.toNat_of_nonneg h0, Option.some.injEq, this]
+    have he : ∀ v ∈ v0 :: vs, e v = rdOrNone w (rawU v).toNat := by
+      intro v hv
+      by_cases hvm : v = .missing
+      · have h1 : 1 < w := by
+          rcases Nat.lt_or_ge 1 w with h | h
+          · exact h
+          · exact absurd ⟨rfl, by omega, v, hv, hvm⟩ hbad
+        have hr := hmiss v hv hvm
+        have : (rawU v).toNat = 2 ^ w - 1 := by omega
+        simp only [e, hvm, if_true, rdOrNone]
+        rw [hvm] at this
+        rw [if_pos ⟨h1, this⟩]
+      · simp only [e, hvm, if_false, rdOrNone]
+    have hmapeq : (v0 :: vs).map (fun v => rdOrNone w (rawU v).toNat) = (v0 :: vs).map e :=
+      List.map_congr_left (fun v hv => (he v hv).symm)
+    rw [hmapeq]
+    simp only [encIntColumnN, Bool.false_eq_true, if_false, hraws] at henc
+    by_cases hall : ((List.map (Option.map Int.ofNat) ((v0 :: vs).map e)).all (· == none)) = true
+    · rw [if_pos hall, hmissf, h06] at henc
+      have hf := ct_catBits_two henc
+      have hnone : ∀ v ∈ v0 :: vs, e v = none := by
+        intro v hv
+        have := List.all_eq_true.mp hall ((e v).map Int.ofNat)
+          (List.mem_map.mpr ⟨e v, List.mem_map.mpr ⟨v, hv, rfl⟩, rfl⟩)
+        cases hev : e v with
+        | none => rfl
+        | some x => rw [hev] at this; simp at this
+      have h1 : 1 < w := by
+        rcases Nat.lt_or_ge 1 w with h | h
+        · exact h
+        · have hn0 := hnone v0 (by simp)
+          have : ¬ 1 < w := by omega
+          by_cases hvm : v0 = .missing
+          · exact absurd ⟨rfl, by omega, v0, by simp, hvm⟩ hbad
+          · simp [e, hvm, this] at hn0
+      have hrep : (v0 :: vs).map e = List.replicate (v0 :: vs).length none := by
+        rw [List.eq_replicate_iff]
+        exact ⟨by simp, fun b hb => by obtain ⟨v, hv, rfl⟩ := List.mem_map.mp hb; exact hnone v hv⟩
+      rw [hf, hrep]
+      simp only [readColumn, List.append_assoc, readUIntOrNone_ones w _ h1 hw64,
+        readUInt_toBits 6 0 suf (by omega) (by omega)]
+      simp
+    · rw [if_neg hall] at henc
+      have hex : ∃ x, some x ∈ (v0 :: vs).map e := by
+        apply Classical.byContradiction
+        intro hno
+        apply hall
+        rw [List.all_eq_true]
+        intro r hr
+        obtain ⟨r', hr', rfl⟩ := List.mem_map.mp hr
+        cases r' with
+        | none => rfl
+        | some x => exact absurd ⟨x, hr'⟩ hno
+      have hlen : (v0 :: vs).length = ((v0 :: vs).map e).length := by simp
+      rw [hlen]
+      refine ct_intColumn_read w false _ f suf hw hw64 ?_ (fun _ => hex) (by simp)
+        (fun h => by cases h) (fun _ => hex) henc
+      intro x hx
+      obtain ⟨v, hv, hvx⟩ := List.mem_map.mp hx
+      obtain ⟨_, hlt⟩ := hU v hv
+      by_cases hvm : v = .missing
+      · simp [e, hvm] at hvx
+      · simp only [e, hvm, if_false] at hvx
+        split at hvx
+        · cases hvx
+        · rename_i hno
+          cases hvx
+          exact ⟨hlt, fun h1 => by
+            have : (rawU v).toNat ≠ 2 ^ w - 1 := fun h => hno ⟨h1, h⟩
+            omega⟩
 
-/-! ### the field writers checked for transparency -/
+/-! ### what the uncompressed checked field writers put into a field -/
 
-/-- the situations in which one supplied value reads back differently from a compressed column and
-    from an uncompressed field: a missing value in a one-bit field (uncompressed: the value 1, in a
-    column with increments: missing) and a present value that is the all-ones pattern of a field wider
-    than one bit (uncompressed: missing; in a column with increments: the number, or — when it is
-    the minimum — a decoder error) -/
-def opaqueRaw (n : Nat) (v : Val) (raw : Int) : Prop :=
-  (n = 1 ∧ v = .missing) ∨ (1 < n ∧ v ≠ .missing ∧ raw = ((2 ^ n - 1 : Nat) : Int))
+/-- the unsigned integer the uncompressed encoder writes for a supplied numeric value -/
+def rawUnumeric (n : Nat) (scale ref : Int) (v : Val) : Int :=
+  match rawNumeric n scale ref v with
+  | .ok r => r
+  | .error _ => 0
 
-instance (n : Nat) (v : Val) (raw : Int) : Decidable (opaqueRaw n v raw) := by
-  unfold opaqueRaw; exact inferInstance
+def rawUcodeflag (n : Nat) (v : Val) : Int :=
+  match rawCodeflag n v with
+  | .ok r => r
+  | .error _ => 0
 
-def fldNumericT (nbits scale ref : Int) : Fld := fun v => do
-  let n ← natWidth nbits
-  let raw ← rawNumeric n scale ref v
-  if opaqueRaw n v raw then .error .other else fldNumericX nbits scale ref v
-
-def fldCodeflagT (n : Nat) : Fld := fun v => do
-  let raw ← rawCodeflag n v
-  if opaqueRaw n v raw then .error .other else fldCodeflagX n v
-
-theorem fldNumericT_le (nb sc rf : Int) (v : Val) (o : FldOut) (h : fldNumericT nb sc rf v = .ok o) :
-    fldNumericX nb sc rf v = .ok o := by
-  unfold fldNumericT at h
-  simp only [bind, Except.bind] at h
-  repeat (split at h; · cases h)
-  exact h
-
-theorem fldCodeflagT_le (n : Nat) (v : Val) (o : FldOut) (h : fldCodeflagT n v = .ok o) :
-    fldCodeflagX n v = .ok o := by
-  unfold fldCodeflagT at h
-  simp only [bind, Except.bind] at h
-  repeat (split at h; · cases h)
-  exact h
-
-/-- field content of a supplied numeric value as a natural number -/
-def rNnumeric (scale ref : Int) (v : Val) : Option Nat :=
-  match rawOptNumeric scale ref v with
-  | .ok (some i) => some i.toNat
-  | _ => none
-
-def rNcodeflag (v : Val) : Option Nat :=
-  match v with
-  | .int i => some i.toNat
-  | _ => none
-
-theorem ct_fldNumericT_ok {nb sc rf : Int} {n : Nat} {v : Val} {fo : FldOut}
-    (hn : natWidth nb = .ok n) (h : fldNumericT nb sc rf v = .ok fo) :
-    0 < n ∧ n ≤ 64 ∧
-    rawOptNumeric sc rf v = .ok ((rNnumeric sc rf v).map Int.ofNat) ∧
-    fo.canon = numVal (rNnumeric sc rf v) sc rf ∧
-    (∀ x, rNnumeric sc rf v = some x → x < 2 ^ n ∧ (1 < n → x < 2 ^ n - 1)) ∧
-    (rNnumeric sc rf v = none → v = .missing ∧ 1 < n) := by
-  unfold fldNumericT at h
+theorem ct_fldNumericX_ok {nb sc rf : Int} {n : Nat} {v : Val} {fo : FldOut}
+    (hn : natWidth nb = .ok n) (h : fldNumericX nb sc rf v = .ok fo) :
+    0 < n ∧ n ≤ 64 ∧ (0 ≤ rawUnumeric n sc rf v ∧ (rawUnumeric n sc rf v).toNat < 2 ^ n) ∧
+    rawOptNumeric sc rf v = .ok (if v = .missing then none else some (rawUnumeric n sc rf v)) ∧
+    (v = .missing → rawUnumeric n sc rf v = ((2 ^ n - 1 : Nat) : Int)) ∧
+    fo.canon = numVal (rdOrNone n (rawUnumeric n sc rf v).toNat) sc rf := by
+  unfold fldNumericX fldNumeric at h
   rw [hn] at h
-  simp only [bind, Except.bind] at h
-  cases hraw : rawNumeric n sc rf v with
-  | error e => rw [hraw] at h; cases h
-  | ok raw =>
-    rw [hraw] at h
-    dsimp only at h
-    split at h
-    · cases h
-    · rename_i hop
-      unfold fldNumericX fldNumeric at h
-      rw [hn] at h
-      simp only [bind, Except.bind, pure, Except.pure, hraw] at h
-      split at h
-      · cases h
-      · rename_i h64
-        cases hf : fieldUInt raw n with
-        | error e => rw [hf] at h; cases h
-        | ok fb =>
-          rw [hf] at h
-          cases h
-          obtain ⟨h0, hnn, hlt, _⟩ := fieldUInt_ok hf
-          have hp := Nat.two_pow_pos n
-          refine ⟨h0, by omega, ?_⟩
-          by_cases hvm : v = .missing
-          · subst hvm
-            have h1 : 1 < n := by
-              rcases Nat.lt_or_ge 1 n with h | h
-              · exact h
-              · exact absurd (Or.inl ⟨by omega, rfl⟩) hop
-            have hrawv : raw = ((2 ^ n - 1 : Nat) : Int) := by
-              simp only [rawNumeric, missingPattern, h64, if_false] at hraw
-              cases hraw; rfl
-            have hrd : rdOrNone n raw.toNat = none := by
-              unfold rdOrNone
-              rw [if_pos ⟨h1, by omega⟩]
-            refine ⟨rfl, ?_, ?_, fun _ => ⟨rfl, h1⟩⟩
-            · show canonNumeric n sc rf raw.toNat = _
-              unfold canonNumeric
-              rw [hrd]; rfl
-            · intro x hx; cases hx
-          · have hq : ∃ q, quantise v sc = .ok q ∧ raw = q - rf := by
-              cases v with
-              | missing => exact absurd rfl hvm
-              | int i =>
-                simp only [rawNumeric, bind, Except.bind, pure, Except.pure] at hraw
-                cases hq : quantise (.int i) sc with
-                | error e => rw [hq] at hraw; cases hraw
-                | ok q => rw [hq] at hraw; cases hraw; exact ⟨q, rfl, rfl⟩
-              | num a b =>
-                simp only [rawNumeric, bind, Except.bind, pure, Except.pure] at hraw
-                cases hq : quantise (.num a b) sc with
-                | error e => rw [hq] at hraw; cases hraw
-                | ok q => rw [hq] at hraw; cases hraw; exact ⟨q, rfl, rfl⟩
-              | bytes b =>
-                simp only [rawNumeric, bind, Except.bind, pure, Except.pure] at hraw
-                cases hq : quantise (.bytes b) sc with
-                | error e => rw [hq] at hraw; cases hraw
-                | ok q => rw [hq] at hraw; cases hraw; exact ⟨q, rfl, rfl⟩
-            obtain ⟨q, hq, hrq⟩ := hq
-            have hro : rawOptNumeric sc rf v = .ok (some raw) := by
-              cases v with
-              | missing => exact absurd rfl hvm
-              | int i => simp only [rawOptNumeric, bind, Except.bind, pure, Except.pure, hq, hrq]
-              | num a b => simp only [rawOptNumeric, bind, Except.bind, pure, Except.pure, hq, hrq]
-              | bytes b => simp only [rawOptNumeric, bind, Except.bind, pure, Except.pure, hq, hrq]
-            have hrn : rNnumeric sc rf v = some raw.toNat := by
-              unfold rNnumeric; rw [hro]
-            have hnot : 1 < n → raw.toNat ≠ 2 ^ n - 1 := by
-              intro h1 heq
-              exact hop (Or.inr ⟨h1, hvm, by omega⟩)
-            have hrd : rdOrNone n raw.toNat = some raw.toNat := by
-              unfold rdOrNone
-              rw [if_neg (fun ⟨a, b⟩ => hnot a b)]
-            refine ⟨?_, ?_, ?_, fun hnone => by rw [hrn] at hnone; cases hnone⟩
-            · rw [hro, hrn]
-              simp only [Option.map_some, Int.ofNat_eq_natCast]
-              congr 2; omega
-            · show canonNumeric n sc rf raw.toNat = _
-              unfold canonNumeric
-              rw [hrd, hrn]
-            · intro x hx
-              rw [hrn] at hx; cases hx
-              exact ⟨hlt, fun h1 => by have := hnot h1; omega⟩
-
-theorem ct_fldCodeflagT_ok {n : Nat} {v : Val} {fo : FldOut} (h : fldCodeflagT n v = .ok fo) :
-    0 < n ∧ n ≤ 64 ∧
-    rawOptCodeflag v = .ok ((rNcodeflag v).map Int.ofNat) ∧
-    fo.canon = codeflagVal n (rNcodeflag v) ∧
-    (∀ x, rNcodeflag v = some x → x < 2 ^ n ∧ (1 < n → x < 2 ^ n - 1)) ∧
-    (rNcodeflag v = none → v = .missing ∧ 1 < n) := by
-  unfold fldCodeflagT at h
-  simp only [bind, Except.bind] at h
-  cases hraw : rawCodeflag n v with
-  | error e => rw [hraw] at h; cases h
-  | ok raw =>
-    rw [hraw] at h
-    dsimp only at h
-    split at h
-    · cases h
-    · rename_i hop
-      unfold fldCodeflagX fldCodeflag at h
-      simp only [bind, Except.bind, pure, Except.pure, hraw] at h
-      split at h
-      · cases h
-      · rename_i h64
-        cases hf : fieldUInt raw n with
-        | error e => rw [hf] at h; cases h
-        | ok fb =>
-          rw [hf] at h
-          cases h
-          obtain ⟨h0, hnn, hlt, _⟩ := fieldUInt_ok hf
-          have hp := Nat.two_pow_pos n
-          refine ⟨h0, by omega, ?_⟩
-          cases v with
-          | missing =>
-            have h1 : 1 < n := by
-              rcases Nat.lt_or_ge 1 n with h | h
-              · exact h
-              · exact absurd (Or.inl ⟨by omega, rfl⟩) hop
-            have hrawv : raw = ((2 ^ n - 1 : Nat) : Int) := by
-              simp only [rawCodeflag, missingPattern, h64, if_false] at hraw
-              cases hraw; rfl
-            have hrd : rdOrNone n raw.toNat = none := by
-              unfold rdOrNone
-              rw [if_pos ⟨h1, by omega⟩]
-            refine ⟨rfl, ?_, ?_, fun _ => ⟨rfl, h1⟩⟩
-            · show canonCodeflag n raw.toNat = _
-              unfold canonCodeflag
-              rw [hrd]; rfl
-            · intro x hx; cases hx
+  simp only [bind, Except.bind, pure, Except.pure] at h
+  split at h
+  · cases h
+  · rename_i h64
+    cases hraw : rawNumeric n sc rf v with
+    | error e => rw [hraw] at h; cases h
+    | ok raw =>
+      rw [hraw] at h
+      dsimp only at h
+      cases hf : fieldUInt raw n with
+      | error e => rw [hf] at h; cases h
+      | ok fb =>
+        rw [hf] at h
+        cases h
+        obtain ⟨h0, hnn, hlt, _⟩ := fieldUInt_ok hf
+        have hU : rawUnumeric n sc rf v = raw := by unfold rawUnumeric; rw [hraw]
+        rw [hU]
+        refine ⟨h0, by omega, ⟨hnn, hlt⟩, ?_, ?_, rfl⟩
+        · cases v with
+          | missing => rfl
           | int i =>
-            have hi : i = raw := by simpa [rawCodeflag] using hraw
-            subst hi
-            have hnot : 1 < n → i.toNat ≠ 2 ^ n - 1 := by
-              intro h1 heq
-              exact hop (Or.inr ⟨h1, by simp, by omega⟩)
-            have hrd : rdOrNone n i.toNat = some i.toNat := by
-              unfold rdOrNone
-              rw [if_neg (fun ⟨a, b⟩ => hnot a b)]
-            refine ⟨?_, ?_, ?_, fun hnone => by cases hnone⟩
-            · simp only [rawOptCodeflag, rNcodeflag, Option.map_some, Int.ofNat_eq_natCast, pure,
-                Except.pure]
-              congr 2; omega
-            · show canonCodeflag n i.toNat = _
-              unfold canonCodeflag codeflagVal rNcodeflag
-              rw [hrd]
-              simp only [uintVal]
-              rw [if_neg (fun ⟨a, b⟩ => hnot a b)]
-            · intro x hx
-              cases hx
-              exact ⟨hlt, fun h1 => by have := hnot h1; omega⟩
+            simp only [rawNumeric, bind, Except.bind, pure, Except.pure] at hraw
+            cases hq : quantise (.int i) sc with
+            | error e => rw [hq] at hraw; cases hraw
+            | ok q =>
+              rw [hq] at hraw; cases hraw
+              simp only [rawOptNumeric, bind, Except.bind, pure, Except.pure, hq, reduceCtorEq, if_false]
+          | num a b =>
+            simp only [rawNumeric, bind, Except.bind, pure, Except.pure] at hraw
+            cases hq : quantise (.num a b) sc with
+            | error e => rw [hq] at hraw; cases hraw
+            | ok q =>
+              rw [hq] at hraw; cases hraw
+              simp only [rawOptNumeric, bind, Except.bind, pure, Except.pure, hq, reduceCtorEq, if_false]
+          | bytes b =>
+            simp only [rawNumeric, bind, Except.bind, pure, Except.pure] at hraw
+            cases hq : quantise (.bytes b) sc with
+            | error e => rw [hq] at hraw; cases hraw
+            | ok q =>
+              rw [hq] at hraw; cases hraw
+              simp only [rawOptNumeric, bind, Except.bind, pure, Except.pure, hq, reduceCtorEq, if_false]
+        · intro hvm
+          subst hvm
+          simp only [rawNumeric, missingPattern, h64, if_false] at hraw
+          cases hraw; rfl
+
+theorem ct_fldCodeflagX_ok {n : Nat} {v : Val} {fo : FldOut} (h : fldCodeflagX n v = .ok fo) :
+    0 < n ∧ n ≤ 64 ∧ (0 ≤ rawUcodeflag n v ∧ (rawUcodeflag n v).toNat < 2 ^ n) ∧
+    rawOptCodeflag v = .ok (if v = .missing then none else some (rawUcodeflag n v)) ∧
+    (v = .missing → rawUcodeflag n v = ((2 ^ n - 1 : Nat) : Int)) ∧
+    fo.canon = uintVal (rdOrNone n (rawUcodeflag n v).toNat) := by
+  unfold fldCodeflagX fldCodeflag at h
+  simp only [bind, Except.bind, pure, Except.pure] at h
+  split at h
+  · cases h
+  · rename_i h64
+    cases hraw : rawCodeflag n v with
+    | error e => rw [hraw] at h; cases h
+    | ok raw =>
+      rw [hraw] at h
+      dsimp only at h
+      cases hf : fieldUInt raw n with
+      | error e => rw [hf] at h; cases h
+      | ok fb =>
+        rw [hf] at h
+        cases h
+        obtain ⟨h0, hnn, hlt, _⟩ := fieldUInt_ok hf
+        have hU : rawUcodeflag n v = raw := by unfold rawUcodeflag; rw [hraw]
+        rw [hU]
+        refine ⟨h0, by omega, ⟨hnn, hlt⟩, ?_, ?_, rfl⟩
+        · cases v with
+          | missing => rfl
+          | int i =>
+            simp only [rawCodeflag] at hraw
+            cases hraw
+            simp only [rawOptCodeflag, pure, Except.pure, reduceCtorEq, if_false]
           | num a b => cases hraw
           | bytes b => cases hraw
+        · intro hvm
+          subst hvm
+          simp only [rawCodeflag, missingPattern, h64, if_false] at hraw
+          cases hraw; rfl
+
+/-- the decoder's re-check of a code / flag entry against the field's missing pattern is inert on
+    what `read_uint_or_none` returns -/
+theorem ct_codeflagVal_rd (n x : Nat) : codeflagVal n (rdOrNone n x) = uintVal (rdOrNone n x) := by
+  unfold rdOrNone
+  split
+  · rfl
+  · rename_i h
+    simp only [codeflagVal, h, if_false, uintVal]
 
 /-! ### the column writers checked for transparency, and their codecs -/
 
+/-- The one situation in which a supplied value reads back differently from a compressed column
+    and from an uncompressed field: a MISSING value in a ONE-BIT field (uncompressed it is written as
+    the bit 1 and reads back as the value 1), in a column whose subsets do not all supply the same
+    value (there it is an all-ones increment and reads back missing). -/
+def oneBitMissing (w : Int) (allEq : Bool) (values : List Val) : Bool :=
+  !allEq && decide (w = 1) && values.any (· == Val.missing)
+
+def neverBad (_ : Bool) (_ : List Val) : Bool := false
+
 /-- `col`, refusing unless every subset's value is accepted by the (checked) uncompressed field
-    writer `fld`; the ghost output `canon` is what the UNCOMPRESSED decoder returns per subset -/
-def colT (col : ColW) (fld : Fld) : ColW := fun allEq values => do
+    writer `fld`, and refusing the columns `bad`; the ghost output `canon` is what the UNCOMPRESSED
+    decoder returns per subset -/
+def colT (col : ColW) (fld : Fld) (bad : Bool → List Val → Bool) : ColW := fun allEq values => do
   let o ← col allEq values
   let fos ← values.mapM fld
-  pure { o with canon := fos.map (·.canon) }
+  if bad allEq values then .error .other else pure { o with canon := fos.map (·.canon) }
 
-theorem colT_ok {col : ColW} {fld : Fld} {a : Bool} {values : List Val} {o : ColOut}
-    (h : colT col fld a values = .ok o) :
+theorem colT_ok {col : ColW} {fld : Fld} {bad : Bool → List Val → Bool} {a : Bool} {values : List Val}
+    {o : ColOut} (h : colT col fld bad a values = .ok o) :
     ∃ o' fos, col a values = .ok o' ∧ List.mapM (m := Except Err) fld values = .ok fos ∧
-      o = { o' with canon := fos.map (·.canon) } := by
+      bad a values = false ∧ o = { o' with canon := fos.map (·.canon) } := by
   unfold colT at h
   simp only [bind, Except.bind, pure, Except.pure] at h
   cases hc : col a values with
@@ -528,7 +541,20 @@ theorem colT_ok {col : ColW} {fld : Fld} {a : Bool} {values : List Val} {o : Col
     dsimp only at h
     cases hm : List.mapM (m := Except Err) fld values with
     | error e => rw [hm] at h; cases h
-    | ok fos => rw [hm] at h; cases h; exact ⟨o', fos, rfl, rfl, rfl⟩
+    | ok fos =>
+      rw [hm] at h
+      dsimp only at h
+      cases hb : bad a values with
+      | true => rw [hb] at h; cases h
+      | false => rw [hb] at h; cases h; exact ⟨o', fos, rfl, rfl, rfl, rfl⟩
+
+theorem ct_not_oneBitMissing {nb : Int} {n : Nat} (hn : natWidth nb = .ok n) {a : Bool} {values : List Val}
+    (h : oneBitMissing nb a values = false) : ¬ (a = false ∧ n = 1 ∧ ∃ v ∈ values, v = .missing) := by
+  rintro ⟨ha, h1, v, hv, hvm⟩
+  have hnb : nb = 1 := by have := (sim_natWidth_ok hn).2; omega
+  have hany : values.any (· == Val.missing) = true := by
+    rw [List.any_eq_true]; exact ⟨v, hv, by simp [hvm]⟩
+  simp [oneBitMissing, ha, hnb, hany] at h
 
 /-- the column reader, run on `n` subsets and a stream that starts with the column, returns the
     ghost column, the register update, and consumes exactly the column -/
@@ -538,9 +564,9 @@ def CodecC (col : ColW) (rd : RdC) : Prop :=
     ∀ rest, rd (v0 :: vs).length (o.bits ++ rest) = .ok ((o.canon, o.upd), rest)
 
 theorem codecC_numeric (nb sc rf : Int) :
-    CodecC (colT (colNumeric nb sc rf) (fldNumericT nb sc rf)) (rdNumericC nb sc rf) := by
+    CodecC (colT (colNumeric nb sc rf) (fldNumericX nb sc rf) (oneBitMissing nb)) (rdNumericC nb sc rf) := by
   intro v0 vs o h
-  obtain ⟨o', fos, hc, hm, rfl⟩ := colT_ok h
+  obtain ⟨o', fos, hc, hm, hbad, rfl⟩ := colT_ok h
   have hrel := ct_mapM_rel2 _ _ _ hm
   refine ⟨by simp [ct_mapM_length hm], fun rest => ?_⟩
   unfold colNumeric at hc
@@ -555,28 +581,29 @@ theorem codecC_numeric (nb sc rf : Int) :
     | ok raws =>
       rw [hr] at hc
       dsimp only at hc
-      cases hf : encIntColumn ((v0 :: vs).all fun x => x == v0) raws n with
+      cases hf : encIntColumnN ((v0 :: vs).all fun x => x == v0) raws n with
       | error e => rw [hf] at hc; cases hc
       | ok f =>
         rw [hf] at hc
         cases hc
-        have hall : ∀ v ∈ v0 :: vs, ∃ fo, fldNumericT nb sc rf v = .ok fo := ct_rel2_ok hrel
+        have hall : ∀ v ∈ v0 :: vs, ∃ fo, fldNumericX nb sc rf v = .ok fo := ct_rel2_ok hrel
         obtain ⟨fo0, hfo0⟩ := hall v0 (by simp)
-        obtain ⟨hw, hw64, _⟩ := ct_fldNumericT_ok hn hfo0
-        have hrd := ct_intColumn_vals n (rawOptNumeric sc rf) (rNnumeric sc rf) v0 vs raws f hw hw64
-          (fun v hv => by obtain ⟨fo, hfo⟩ := hall v hv; exact (ct_fldNumericT_ok hn hfo).2.2.1)
-          (fun v hv => by obtain ⟨fo, hfo⟩ := hall v hv; exact (ct_fldNumericT_ok hn hfo).2.2.2.2.1)
-          (fun v hv => by obtain ⟨fo, hfo⟩ := hall v hv; exact (ct_fldNumericT_ok hn hfo).2.2.2.2.2)
-          hr hf rest
-        have hcanon : fos.map (·.canon) = (v0 :: vs).map (fun v => numVal (rNnumeric sc rf v) sc rf) :=
-          ct_rel2_map hrel _ _ (fun v _ fo hfo => (ct_fldNumericT_ok hn hfo).2.2.2.1)
+        obtain ⟨hw, hw64, _⟩ := ct_fldNumericX_ok hn hfo0
+        have hrd := ct_intColumnN_vals n (rawOptNumeric sc rf) (rawUnumeric n sc rf) v0 vs raws f hw hw64
+          (fun v hv => by obtain ⟨fo, hfo⟩ := hall v hv; exact (ct_fldNumericX_ok hn hfo).2.2.1)
+          (fun v hv => by obtain ⟨fo, hfo⟩ := hall v hv; exact (ct_fldNumericX_ok hn hfo).2.2.2.1)
+          (fun v hv => by obtain ⟨fo, hfo⟩ := hall v hv; exact (ct_fldNumericX_ok hn hfo).2.2.2.2.1)
+          (ct_not_oneBitMissing hn hbad) hr hf rest
+        have hcanon : fos.map (·.canon)
+            = (v0 :: vs).map (fun v => numVal (rdOrNone n (rawUnumeric n sc rf v).toNat) sc rf) :=
+          ct_rel2_map hrel _ _ (fun v _ fo hfo => (ct_fldNumericX_ok hn hfo).2.2.2.2.2)
         simp only [rdNumericC, hn, bind, Except.bind, pure, Except.pure, hrd, hcanon, List.map_map]
         rfl
 
 theorem codecC_codeflag (n : Nat) :
-    CodecC (colT (colCodeflag n) (fldCodeflagT n)) (rdCodeflagC n) := by
+    CodecC (colT (colCodeflag n) (fldCodeflagX n) (oneBitMissing n)) (rdCodeflagC n) := by
   intro v0 vs o h
-  obtain ⟨o', fos, hc, hm, rfl⟩ := colT_ok h
+  obtain ⟨o', fos, hc, hm, hbad, rfl⟩ := colT_ok h
   have hrel := ct_mapM_rel2 _ _ _ hm
   refine ⟨by simp [ct_mapM_length hm], fun rest => ?_⟩
   unfold colCodeflag at hc
@@ -587,21 +614,27 @@ theorem codecC_codeflag (n : Nat) :
   | ok raws =>
     rw [hr] at hc
     dsimp only at hc
-    cases hf : encIntColumn ((v0 :: vs).all fun x => x == v0) raws n with
+    cases hf : encIntColumnN ((v0 :: vs).all fun x => x == v0) raws n with
     | error e => rw [hf] at hc; cases hc
     | ok f =>
       rw [hf] at hc
       cases hc
-      have hall : ∀ v ∈ v0 :: vs, ∃ fo, fldCodeflagT n v = .ok fo := ct_rel2_ok hrel
+      have hall : ∀ v ∈ v0 :: vs, ∃ fo, fldCodeflagX n v = .ok fo := ct_rel2_ok hrel
       obtain ⟨fo0, hfo0⟩ := hall v0 (by simp)
-      obtain ⟨hw, hw64, _⟩ := ct_fldCodeflagT_ok hfo0
-      have hrd := ct_intColumn_vals n rawOptCodeflag rNcodeflag v0 vs raws f hw hw64
-        (fun v hv => by obtain ⟨fo, hfo⟩ := hall v hv; exact (ct_fldCodeflagT_ok hfo).2.2.1)
-        (fun v hv => by obtain ⟨fo, hfo⟩ := hall v hv; exact (ct_fldCodeflagT_ok hfo).2.2.2.2.1)
-        (fun v hv => by obtain ⟨fo, hfo⟩ := hall v hv; exact (ct_fldCodeflagT_ok hfo).2.2.2.2.2)
-        hr hf rest
-      have hcanon : fos.map (·.canon) = (v0 :: vs).map (fun v => codeflagVal n (rNcodeflag v)) :=
-        ct_rel2_map hrel _ _ (fun v _ fo hfo => (ct_fldCodeflagT_ok hfo).2.2.2.1)
+      obtain ⟨hw, hw64, _⟩ := ct_fldCodeflagX_ok hfo0
+      have hnw : natWidth (n : Int) = .ok n := by
+        unfold natWidth
+        rw [if_neg (by omega)]
+        rfl
+      have hrd := ct_intColumnN_vals n rawOptCodeflag (rawUcodeflag n) v0 vs raws f hw hw64
+        (fun v hv => by obtain ⟨fo, hfo⟩ := hall v hv; exact (ct_fldCodeflagX_ok hfo).2.2.1)
+        (fun v hv => by obtain ⟨fo, hfo⟩ := hall v hv; exact (ct_fldCodeflagX_ok hfo).2.2.2.1)
+        (fun v hv => by obtain ⟨fo, hfo⟩ := hall v hv; exact (ct_fldCodeflagX_ok hfo).2.2.2.2.1)
+        (ct_not_oneBitMissing hnw hbad) hr hf rest
+      have hcanon : fos.map (·.canon)
+          = (v0 :: vs).map (fun v => codeflagVal n (rdOrNone n (rawUcodeflag n v).toNat)) :=
+        ct_rel2_map hrel _ _ (fun v _ fo hfo => by
+          rw [(ct_fldCodeflagX_ok hfo).2.2.2.2.2, ct_codeflagVal_rd])
       simp only [rdCodeflagC, bind, Except.bind, pure, Except.pure, hrd, hcanon, List.map_map]
       rfl
 
@@ -629,9 +662,9 @@ theorem ct_fldString_ok {n : Nat} {v : Val} {fo : FldOut} (h : fldString n v = .
   | int i => cases h
   | num a b => cases h
 
-theorem codecC_string (n : Nat) : CodecC (colT (colString n) (fldString n)) (rdStringC n) := by
+theorem codecC_string (n : Nat) : CodecC (colT (colString n) (fldString n) neverBad) (rdStringC n) := by
   intro v0 vs o h
-  obtain ⟨o', fos, hc, hm, rfl⟩ := colT_ok h
+  obtain ⟨o', fos, hc, hm, _, rfl⟩ := colT_ok h
   have hrel := ct_mapM_rel2 _ _ _ hm
   refine ⟨by simp [ct_mapM_length hm], fun rest => ?_⟩
   unfold colString at hc
@@ -672,9 +705,9 @@ theorem codecC_string (n : Nat) : CodecC (colT (colString n) (fldString n)) (rdS
     rfl
 
 theorem codecC_newRefval (id n : Nat) :
-    CodecC (colT (colNewRefval id n) (fldNewRefval id n)) (rdNewRefvalC id n) := by
+    CodecC (colT (colNewRefval id n) (fldNewRefval id n) neverBad) (rdNewRefvalC id n) := by
   intro v0 vs o h
-  obtain ⟨o', fos, hc, hm, rfl⟩ := colT_ok h
+  obtain ⟨o', fos, hc, hm, _, rfl⟩ := colT_ok h
   have hrel := ct_mapM_rel2 _ _ _ hm
   refine ⟨by simp [ct_mapM_length hm], fun rest => ?_⟩
   unfold colNewRefval at hc
@@ -714,9 +747,9 @@ theorem codecC_newRefval (id n : Nat) :
     | bytes b => cases hc
 
 theorem codecC_constant (c : Int) :
-    CodecC (colT (colConstant c) (fldConstant c)) (rdConstantC c) := by
+    CodecC (colT (colConstant c) (fldConstant c) neverBad) (rdConstantC c) := by
   intro v0 vs o h
-  obtain ⟨o', fos, hc, hm, rfl⟩ := colT_ok h
+  obtain ⟨o', fos, hc, hm, _, rfl⟩ := colT_ok h
   have hrel := ct_mapM_rel2 _ _ _ hm
   refine ⟨by simp [ct_mapM_length hm], fun rest => ?_⟩
   unfold colConstant at hc
@@ -789,25 +822,24 @@ def encLastValuesCT (n : Nat) (s : St) : CM (List Val) := do
     1. (as `encPrimsCX`) a numeric / code / flag value of some subset that the uncompressed encoder
        refuses (negative or too large for its field; the compressed encoder range-checks only the
        minimum of a column);
-    2. a field wider than 64 bits (no decoder reads it);
-    3. a present numeric / code / flag value that is the all-ones pattern of its field, for fields
-       wider than one bit (`opaqueRaw`; uncompressed it reads back missing, compressed as the number
-       or not at all);
-    4. a missing value in a one-bit field (`opaqueRaw`; uncompressed it reads back as 1, compressed
-       as missing);
-    5. (as `encPrimsCX`) replication factors that are not literally equal in all subsets, and (as
+    2. a numeric / code / flag field wider than 64 bits (no decoder reads it);
+    3. a missing value in a ONE-BIT field, in a column whose subsets do not all supply the same value
+       (`oneBitMissing`; uncompressed it reads back as 1, compressed as missing);
+    4. (as `encPrimsCX`) replication factors that are not literally equal in all subsets, and (as
        `encPrimsUX`) a factor whose field does not read back as supplied;
-    6. (as `encPrimsCX`) bitmaps whose zero entries differ between subsets, and (as `encPrimsUX`)
+    5. (as `encPrimsCX`) bitmaps whose zero entries differ between subsets, and (as `encPrimsUX`)
        bitmap entries that read back zero at other positions than supplied; a bitmap of length
        zero (unreachable).
+    NOT refused (no longer, since the repair of finding F18 = `encIntColumnN`): a present value that
+    is the all-ones pattern of its field — both forms read it back as missing.
     A column whose spread does not fit the 6-bit increment width (`Spec.SpanOK`) needs no refusal:
     the compressed encoder itself fails on it (`ct_spanOK_of_enc`). -/
 def encPrimsCT : Prims where
-  numeric dd nb sc rf := encStepCT dd (colT (colNumeric nb sc rf) (fldNumericT nb sc rf))
-  string dd n := encStepCT dd (colT (colString n) (fldString n))
-  codeflag dd n := encStepCT dd (colT (colCodeflag n) (fldCodeflagT n))
-  newRefval e n := encStepCT (.plain e) (colT (colNewRefval e.id n) (fldNewRefval e.id n))
-  constant dd c := encStepCT dd (colT (colConstant c) (fldConstant c))
+  numeric dd nb sc rf := encStepCT dd (colT (colNumeric nb sc rf) (fldNumericX nb sc rf) (oneBitMissing nb))
+  string dd n := encStepCT dd (colT (colString n) (fldString n) neverBad)
+  codeflag dd n := encStepCT dd (colT (colCodeflag n) (fldCodeflagX n) (oneBitMissing n))
+  newRefval e n := encStepCT (.plain e) (colT (colNewRefval e.id n) (fldNewRefval e.id n) neverBad)
+  constant dd c := encStepCT dd (colT (colConstant c) (fldConstant c) neverBad)
   factorValue := encFactorCT
   lastValues := encLastValuesCT
 
@@ -1014,9 +1046,10 @@ theorem colUpd_of_id {col : ColW} {fld : Fld} (h1 : ∀ a vs o, col a vs = .ok o
   rw [h1 _ _ _ ho, h2 _ _ hfo]
 
 theorem encStepCT_encStepX_sim (k : Nat) (dd : DDesc) (col : ColW) (fld fldX : Fld)
+    (bad : Bool → List Val → Bool)
     (hle : ∀ v fo, fld v = .ok fo → fldX v = .ok fo) (hu : ColUpd col fld) (s : St) :
     SimAt (I := Unit) (fun _ _ => True) (fun _ => RelProjT k) s
-      (encStepCT dd (colT col fld) s) (encStepX dd fldX) := by
+      (encStepCT dd (colT col fld bad) s) (encStepX dd fldX) := by
   intro s' hr j _
   refine ⟨(), trivial, ?_⟩
   rintro t ⟨h1, h2, h3, h4, ⟨row, hrow, hvals⟩, ⟨g, hg, haux⟩⟩
@@ -1029,12 +1062,12 @@ theorem encStepCT_encStepX_sim (k : Nat) (dd : DDesc) (col : ColW) (fld fldX : F
     | nil => cases hr
     | cons v0 vs =>
       dsimp only at hr
-      cases ho : colT col fld ((v0 :: vs).all (· == v0)) (v0 :: vs) with
+      cases ho : colT col fld bad ((v0 :: vs).all (· == v0)) (v0 :: vs) with
       | error e => rw [ho] at hr; cases hr
       | ok o =>
         rw [ho] at hr
         cases hr
-        obtain ⟨o', fos, hc, hm, rfl⟩ := colT_ok ho
+        obtain ⟨o', fos, hc, hm, _, rfl⟩ := colT_ok ho
         obtain ⟨v, hvk, hnth⟩ := mapM_ok_get _ _ _ hv k row hrow
         obtain ⟨fo, hfok, hfo⟩ := mapM_ok_get fld _ _ hm k v hvk
         have hupd := hu v0 vs o' hc v (List.mem_of_getElem? hvk) fo hfo
@@ -1050,12 +1083,12 @@ theorem encStepCT_encStepX_sim (k : Nat) (dd : DDesc) (col : ColW) (fld fldX : F
         exact ⟨⟨row, hrow, rfl⟩, ⟨_, ghostPush_get hck hg, rfl⟩⟩
 
 theorem fldNumericX_upd (nb sc rf : Int) (v : Val) (fo : FldOut)
-    (h : fldNumericT nb sc rf v = .ok fo) : fo.upd = id :=
-  fldNumeric_upd nb sc rf v fo (fldNumericX_le nb sc rf v fo (fldNumericT_le nb sc rf v fo h))
+    (h : fldNumericX nb sc rf v = .ok fo) : fo.upd = id :=
+  fldNumeric_upd nb sc rf v fo (fldNumericX_le nb sc rf v fo h)
 
 theorem fldCodeflagX_upd (n : Nat) (v : Val) (fo : FldOut)
-    (h : fldCodeflagT n v = .ok fo) : fo.upd = id :=
-  fldCodeflag_upd n v fo (fldCodeflagX_le n v fo (fldCodeflagT_le n v fo h))
+    (h : fldCodeflagX n v = .ok fo) : fo.upd = id :=
+  fldCodeflag_upd n v fo (fldCodeflagX_le n v fo h)
 
 theorem ct_encFactorCX_row {s : St} {v : Val} (h : encFactorCX s = .ok v) {k : Nat} {row : List Val}
     (hrow : s.vals[k]? = some row) : s.idx ≠ 0 ∧ nthVal row (s.idx - 1) = .ok v := by
@@ -1109,17 +1142,17 @@ theorem primSim_ct_ux (k : Nat) : PrimSim₀ encPrimsCT encPrimsUX (RelProjT k) 
   ix_setRegs := fun _ => Iff.rfl
   ix_addLink := fun _ => Iff.rfl
   numeric := fun dd nb sc rf s =>
-    encStepCT_encStepX_sim k dd _ _ _ (fldNumericT_le nb sc rf)
+    encStepCT_encStepX_sim k dd _ _ _ _ (fun _ _ h => h)
       (colUpd_of_id (colNumeric_upd nb sc rf) (fldNumericX_upd nb sc rf)) s
   string := fun dd n s =>
-    encStepCT_encStepX_sim k dd _ _ _ (fun _ _ h => h) (colUpd_of_proj (colProj_string n)) s
+    encStepCT_encStepX_sim k dd _ _ _ _ (fun _ _ h => h) (colUpd_of_proj (colProj_string n)) s
   codeflag := fun dd n s =>
-    encStepCT_encStepX_sim k dd _ _ _ (fldCodeflagT_le n)
+    encStepCT_encStepX_sim k dd _ _ _ _ (fun _ _ h => h)
       (colUpd_of_id (colCodeflag_upd n) (fldCodeflagX_upd n)) s
   newRefval := fun e n s =>
-    encStepCT_encStepX_sim k _ _ _ _ (fun _ _ h => h) (colUpd_of_proj (colProj_newRefval e.id n)) s
+    encStepCT_encStepX_sim k _ _ _ _ _ (fun _ _ h => h) (colUpd_of_proj (colProj_newRefval e.id n)) s
   constant := fun dd c s =>
-    encStepCT_encStepX_sim k dd _ _ _ (fun _ _ h => h) (colUpd_of_proj (colProj_constant c)) s
+    encStepCT_encStepX_sim k dd _ _ _ _ (fun _ _ h => h) (colUpd_of_proj (colProj_constant c)) s
   factor := by
     intro i s t n ⟨_, _, _, h4, ⟨row, hrow, hvals⟩, ⟨g, hg, haux⟩⟩ h
     show (encFactorX t >>= factorCount) = .ok n
@@ -1184,15 +1217,16 @@ theorem encStepCT_encStepC_sim (dd : DDesc) (colA colB : ColW)
         rw [ho']
         exact ⟨_, rfl, by simp only [RelErase, h1, h2, h3, h4, h5, h6, hb, hu, and_self]⟩
 
-theorem colT_le (col : ColW) (fld : Fld) (a : Bool) (vs : List Val) (o : ColOut)
-    (h : colT col fld a vs = .ok o) : ∃ o', col a vs = .ok o' ∧ o'.bits = o.bits ∧ o'.upd = o.upd := by
-  obtain ⟨o', fos, hc, _, rfl⟩ := colT_ok h
+theorem colT_le (col : ColW) (fld : Fld) (bad : Bool → List Val → Bool) (a : Bool) (vs : List Val)
+    (o : ColOut) (h : colT col fld bad a vs = .ok o) : ∃ o', col a vs = .ok o' ∧ o'.bits = o.bits ∧ o'.upd = o.upd := by
+  obtain ⟨o', fos, hc, _, _, rfl⟩ := colT_ok h
   exact ⟨o', hc, rfl, rfl⟩
 
-theorem colT_le_checked (col : ColW) (fldT fld : Fld) (hle : ∀ v fo, fldT v = .ok fo → fld v = .ok fo)
-    (a : Bool) (vs : List Val) (o : ColOut) (h : colT col fldT a vs = .ok o) :
+theorem colT_le_checked (col : ColW) (fldT fld : Fld) (bad : Bool → List Val → Bool)
+    (hle : ∀ v fo, fldT v = .ok fo → fld v = .ok fo)
+    (a : Bool) (vs : List Val) (o : ColOut) (h : colT col fldT bad a vs = .ok o) :
     ∃ o', colChecked col fld a vs = .ok o' ∧ o'.bits = o.bits ∧ o'.upd = o.upd := by
-  obtain ⟨o', fos, hc, hm, rfl⟩ := colT_ok h
+  obtain ⟨o', fos, hc, hm, _, rfl⟩ := colT_ok h
   refine ⟨o', ?_, rfl, rfl⟩
   unfold colChecked
   rw [hc]
@@ -1214,14 +1248,12 @@ theorem primSim_ct_cx : PrimSim₀ encPrimsCT encPrimsCX RelErase where
   ix_setRegs := fun _ => Iff.rfl
   ix_addLink := fun _ => Iff.rfl
   numeric := fun dd nb sc rf s =>
-    encStepCT_encStepC_sim dd _ _ (colT_le_checked _ _ _
-      (fun v fo h => fldNumericX_le nb sc rf v fo (fldNumericT_le nb sc rf v fo h))) s
-  string := fun dd n s => encStepCT_encStepC_sim dd _ _ (colT_le _ _) s
+    encStepCT_encStepC_sim dd _ _ (colT_le_checked _ _ _ _ (fldNumericX_le nb sc rf)) s
+  string := fun dd n s => encStepCT_encStepC_sim dd _ _ (colT_le _ _ _) s
   codeflag := fun dd n s =>
-    encStepCT_encStepC_sim dd _ _ (colT_le_checked _ _ _
-      (fun v fo h => fldCodeflagX_le n v fo (fldCodeflagT_le n v fo h))) s
-  newRefval := fun e n s => encStepCT_encStepC_sim _ _ _ (colT_le _ _) s
-  constant := fun dd c s => encStepCT_encStepC_sim dd _ _ (colT_le _ _) s
+    encStepCT_encStepC_sim dd _ _ (colT_le_checked _ _ _ _ (fldCodeflagX_le n)) s
+  newRefval := fun e n s => encStepCT_encStepC_sim _ _ _ (colT_le _ _ _) s
+  constant := fun dd c s => encStepCT_encStepC_sim dd _ _ (colT_le _ _ _) s
   factor := by
     intro i s t n ⟨_, _, _, h4, h5, _⟩ h
     show (encFactorCX t >>= factorCount) = .ok n
